@@ -30,6 +30,7 @@ ASSUMPTIONS = [
 ]
 MIN_NONTRIVIAL_FRACTION = 0.1
 RULE += " Added after the seeded rounds: " + 'Additionally a memoised breadth-first exploration of the whole state space of 2 operations x 2 resources (depth 7/8 - the memoised state space of about 19000 states is exhausted before that) and 3 operations x 2 resources with preemption (depth 4/6), and histories in which one operation is blocked on two different owners.'
+RULE += ' Operations may carry metadata watchdog_exempt (a timeout-only exemption); a real cycle that check_deadlock() reports must be handled by watchdog.execute().'
 REQUIRED_LABELS = {"ref-cycle": 0.01}
 EXHAUSTIVE_NOTE = {"quick": "all acquire-only histories of depth 1..4 over 3 ops x 3 non-preemptable resources (9+81+729+6561 = 7380), complete",
                    "thorough": "all acquire-only histories of depth 1..6 over 3 ops x 3 non-preemptable resources (597870), complete"}
@@ -65,7 +66,8 @@ def _case(draw):
             hist = hist[:3] + [["acq", OPS[x], others[0]], ["acq", OPS[x], others[1]]] + hist[3:]
     if draw(st.booleans()):
         hist = hist + [["watchdog"]]
-    return {"ops_n": n_ops, "res": res, "prio": list(prio), "strategy": draw(st.sampled_from(["priority", "priority", "oldest"])), "hist": hist}
+    return {"ops_n": n_ops, "res": res, "prio": list(prio), "strategy": draw(st.sampled_from(["priority", "priority", "oldest"])), "hist": hist,
+            "exempt": draw(st.sampled_from([[], [], [], ["A"], ["B"], ["A", "B", "C"], ["C"]]))}
 
 
 def strategy(tier):
@@ -217,10 +219,19 @@ def judge(case):
     ctxs = {}
     birth = {}
     clock = [0]
+    exempt = set(case.get("exempt") or [])       # operations marked watchdog_exempt: exempt from the *timeout* checks only - a deadlock is still a deadlock
+
+    def mark(o):
+        if o in exempt:
+            ctxs[o].metadata["watchdog_exempt"] = True
+
     for o in ops:
         ctxs[o] = ctrl.start_operation(o, "agent-" + o, prio[o])
+        mark(o)
         clock[0] += 1
         birth[o] = clock[0]
+    if exempt:
+        out.label("watchdog-exempt-operation")
     M = _Models()
     active = set(ops)
     consistent = set(SWITCH_SETS)      # switch subsets that explain every step so far
@@ -252,6 +263,7 @@ def judge(case):
                     out.skipped += 1
                     continue
                 ctxs[o] = ctrl.start_operation(o, "agent-" + o, prio[o])
+                mark(o)
                 clock[0] += 1
                 birth[o] = clock[0]
                 active.add(o)
@@ -303,6 +315,12 @@ def judge(case):
                 pre_owned = {o: end_op(o) for o in active}
                 pre_prio = {o: ctxs[o].priority for o in active}
                 events = wd.execute(ctrl)
+                if frozenset() in consistent and pre_report is not None and _on_cycle(pre_truth, list(pre_report.agents)) \
+                        and not any(ev.reason == ApoptosisReason.DEADLOCK for ev in events):
+                    # "after the watchdog handles a reported deadlock ... that cycle is gone": a real, reported cycle may not be left alone
+                    out.fail("watchdog:reported-deadlock-not-handled", "check_deadlock() reports the real cycle %s but watchdog.execute() killed nobody" % (list(pre_report.agents),),
+                             {"step": i, "exempt": sorted(exempt)})
+                    return out
                 for ev in events:
                     if ev.reason != ApoptosisReason.DEADLOCK:
                         continue
